@@ -54,6 +54,10 @@ def run():
         ('disabled event and event beyond tf', 1.0,
          [('Toggle', dict(model='Line', dev='Line_8', t=0.5, u=0)), ('Toggle', dict(model='Line', dev='Line_5', t=2.5)),
           ('Toggle', dict(model='Line', dev='Line_3', t=0.25))]),
+        ('event times that are not multiples of any decimal grid', 1.2,
+         [('Toggle', dict(model='Line', dev='Line_8', t=1.0 / 9.0)), ('Toggle', dict(model='Line', dev='Line_8', t=0.6180339887498949)),
+          ('Fault', dict(bus=7, tf=0.3141592653589793, tc=0.3141592653589793 + 5.0 / 60.0, xf=0.05)),
+          ('Alter', dict(model='TGOV1', dev=1, src='R', attr='v', method='*', amount=1.1, t=0.7071067811865476))]),
     ]
     for label, tf, extra in scen:
         n += 1
